@@ -265,8 +265,14 @@ func (ss *StdSignature) Unmarshal(data []byte) error {
 }
 
 func (ss StdSignature) ToProto() ProtoStdSignature {
+	// the public key is optional (it may be looked up in the world state instead);
+	// FromProto already maps an absent key to nil
+	var pkBz []byte
+	if ss.PublicKey != nil {
+		pkBz = ss.PublicKey.RawBytes()
+	}
 	return ProtoStdSignature{
-		PublicKey: ss.PublicKey.RawBytes(),
+		PublicKey: pkBz,
 		Signature: ss.Signature,
 	}
 }
